@@ -97,6 +97,54 @@ def case(ctx, rnd, i):
         check_rebase(ctx, rnd)
     else:
         check_mapping(ctx, rnd)
+    if i % 4 == 0:
+        check_large_map(ctx, rnd)
+
+
+def check_large_map(ctx, rnd):
+    """Maps over long documents: ranges of 10^4 .. 3*10^5 positions, sampled positions around the
+    range ends and at offsets around 2^16 and 2^17 inside them (recover values are packed
+    numbers; nothing may depend on an offset being small)."""
+    from prosemirror.transform import Mapping, StepMap
+
+    ranges = []
+    at = rnd.randint(0, 500000)
+    for _ in range(rnd.randint(1, 2)):
+        old, new = rnd.choice([(rnd.randint(66000, 300000), rnd.randint(0, 5)), (rnd.randint(0, 5), rnd.randint(66000, 300000)),
+                               (rnd.randint(66000, 200000), rnd.randint(66000, 200000)), (rnd.randint(10000, 60000), 0)])
+        ranges += [at, old, new]
+        at += old + rnd.randint(1, 100000)
+    ctx.count("large_stepmaps")
+    for inverted in (False, True):
+        m = StepMap(list(ranges)) if not inverted else StepMap(list(ranges)).invert()
+        tr = refmap.normal_ranges(ranges, inverted)
+        inv = m.invert()
+        det = {"ranges": list(ranges), "inverted": inverted}
+        pts = set()
+        for (st, o, nn) in tr:
+            for off in (0, 1, 2, 65535, 65536, 65537, 131071, 131072, 131073, o // 2, o - 1, o, o + 1):
+                if 0 <= off <= o + 1:
+                    pts.add(st + off)
+            pts.add(max(0, st - 1))
+        for pos in sorted(pts):
+            for assoc in (-1, 1):
+                ctx.ev()
+                r = refmap.map_pos(tr, pos, assoc)
+                try:
+                    got = m.map_result(pos, assoc)
+                    rt = Mapping([m, inv], [0, 1]).map(pos, assoc)
+                except Exception as e:
+                    ctx.violation("stepmap-raised", "%s: %s on a large map" % (type(e).__name__, e), det, {"exc": type(e).__name__, "large": True})
+                    return
+                if got.pos != r.pos or bool(got.deleted) != bool(r.deleted):
+                    ctx.violation("map", "large map %r%s: map_result(%d,%d) = pos %r deleted %r, reference %d %r" % (ranges, " inverted" if inverted else "", pos, assoc, got.pos, got.deleted, r.pos, r.deleted),
+                                  det, {"large": True})
+                    return
+                if rt != pos and len(tr) == 1:
+                    ctx.violation("mirror-roundtrip", "large map %r%s: Mapping([M, M.invert()], mirror 0<->1).map(%d,%d) = %r, expected %d (offset %d from the range start)"
+                                  % (ranges, " inverted" if inverted else "", pos, assoc, rt, pos, pos - tr[0][0]), det, {"large": True, "adjacent": False})
+                    return
+    ctx.cover(["A-large", len(ranges) // 3], nontrivial=True)
 
 
 # ------------------------------------------------------------------ part A
